@@ -695,7 +695,7 @@ func (d *dt1) taintedUses(f *ssa.Function, v ssa.Value, label string, depth int)
 func enclosingLoopHeader(b *ssa.BasicBlock) *ssa.BasicBlock {
 	// the innermost block that dominates b, and that b can reach (a loop header)
 	for cur := b; cur != nil; cur = cur.Idom() {
-		if cur != b && reach(b, nil, nil)[cur] && cur.Dominates(b) {
+		if cur != b && isLoopHeader(cur) && reach(b, nil, nil)[cur] && cur.Dominates(b) {
 			return cur
 		}
 		if cur == b && inCycle(b) {
